@@ -31,7 +31,7 @@ def vecF(x):
 
 
 def gen_case(rng, tier):
-    kind = str(rng.choice(["kraus_cptp", "kraus_cp", "kraus_rect", "nonCP", "unitary", "hp_nonCP", "ctor_super", "ctor_super", "oper_square", "oper_rect", "oper_rect"]))
+    kind = str(rng.choice(["kraus_cptp", "kraus_cp", "kraus_rect", "nonCP", "unitary", "hp_nonCP", "ctor_super", "ctor_super", "oper_square", "oper_rect", "oper_rect", "zero"]))
     dims = [[2], [3], [2, 2], [2], [4]][int(rng.integers(0, 5))]
     din = int(np.prod(dims))
     dout_dims = dims
@@ -100,6 +100,8 @@ def build(case):
         return (lambda X: (S @ vecF(X)).reshape(din, din, order="F")), {"super": Sq}, False
     # general linear map given by a random supermatrix
     S = gi(din * din, din * din, rng)
+    if kind == "zero":
+        S = np.zeros_like(S)      # the zero map (completely positive, not trace preserving)
     if kind == "hp_nonCP":
         # Hermiticity preserving but not CP: difference of two CP maps
         A, B = gi(din, din, rng), gi(din, din, rng)
@@ -219,7 +221,11 @@ def run_case(case, rep_):
         c = reps["chi"].full() / 2 ** nq        # the library normalises tr(chi) = d^2 for a trace-preserving map; the guide's B_a carry 1/sqrt(d)
         for X in basis:
             want = fn(X)
-            got = sum(c[a_, b_] * Bs[a_] @ X @ Bs[b_].conj().T for a_ in range(len(Bs)) for b_ in range(len(Bs)) if c[a_, b_] != 0)
+            got = np.zeros((dout, dout), dtype=complex)
+            for a_ in range(len(Bs)):
+                for b_ in range(len(Bs)):
+                    if c[a_, b_] != 0:
+                        got = got + c[a_, b_] * Bs[a_] @ X @ Bs[b_].conj().T
             rep_.evaluations += 1
             if np.shape(got) != want.shape or np.abs(got - want).max() > TOL * (1 + np.abs(want).max()):
                 V("apply-definition:chi", f"sum_ab chi_ab P_a X P_b^dagger / d (Pauli products, first qubit most significant) differs from the map (max dev {np.abs(got - want).max() if np.shape(got) == want.shape else 'shape'})")
